@@ -12,7 +12,7 @@ let rule = "populations of 14 (database, key) pairs - keys that equal, extend, a
 hash-tagged keys, the tool's checkpoint key and its neighbours; databases 0,1,3,10,13 against lists like [1] / [1,3] (1 must not match 10 or 13) - under 9 \
 configurations (no filter, key blacklist, key whitelist, db blacklist, db whitelist, both, slot list, filter.lua, key + lua), each population pushed through the four \
 real paths: full sync worker pool (generated RDB, hook), restore worker pool (hook), rump executor (fakeredis source, hook) and the incremental parser/sender \
-(RESP stream of select/set plus eval/EVALSHA/script/OPINFO in mixed case, hook); the set of keys arriving on the target is compared with the configuration's \
+(RESP stream of select and set/incr/DEL/hset/unlink carrying the keys, plus eval/EVALSHA/script/OPINFO in mixed case, hook); the set of keys arriving on the target is compared with the configuration's \
 meaning and with the model's path function; non-trivial = a configuration with at least one list; distinct by wire line"
 
 let bs = bytes_of_string
@@ -52,6 +52,9 @@ let units c =
   List.concat_map (fun (db, k) ->
     (if db <> !cur then (cur := db; [ USelect ((if db < 64 then L6 else L14), n_of_int db) ]) else []) @ [ UKey (raw k, VStr (N0, raw "v")) ]) c.pop
 
+(* the command carrying the i-th key on the incremental path: single- and multi-argument shapes *)
+let shape i k = match i mod 5 with 0 -> [ "set"; k; "v" ] | 1 -> [ "incr"; k ] | 2 -> [ "DEL"; k ] | 3 -> [ "hset"; k; "f"; "v" ] | _ -> [ "unlink"; k ]
+
 let to_line c =
   match c.path with
   | Full | Restore ->
@@ -65,7 +68,7 @@ let to_line c =
                     src = List.map (fun db -> (db, [ List.filter_map (fun (d, k) -> if d = db then Some { C16.key = k; payload; pttl = -1; vanish = "-"; value = None } else None) c.pop ])) dbs }
   | Incr ->
       let cmds = ref [] and cur = ref (-1) in
-      List.iter (fun (db, k) -> if db <> !cur then (cur := db; cmds := [ "select"; string_of_int db ] :: !cmds); cmds := [ "set"; k; "v" ] :: !cmds) c.pop;
+      List.iteri (fun i (db, k) -> if db <> !cur then (cur := db; cmds := [ "select"; string_of_int db ] :: !cmds); cmds := shape i k :: !cmds) c.pop;
       List.iter (fun s -> cmds := [ s; "return 1"; "0" ] :: !cmds) c.scripts;
       Incrgen.to_line { Incrgen.cfg = { Incrgen.dbblack = c.fc.dbblack; dbwhite = c.fc.dbwhite; keyblack = c.fc.keyblack; keywhite = c.fc.keywhite; lua = c.fc.lua;
                                         tdb = -1; resume = false; scount = 100; ssize = 1000000 };
@@ -103,7 +106,8 @@ let judge c obs =
   let model = List.filter (fun (db, k) -> match c.path with
       | Full -> path_full mf (z_of_int db) (bs k) | Restore -> path_restore mf (z_of_int db) (bs k) | Rump -> path_rump mf (z_of_int db) (bs k)
       | Incr -> path_incr (Incrgen.model_cfg { Incrgen.dbblack = f.dbblack; dbwhite = f.dbwhite; keyblack = f.keyblack; keywhite = f.keywhite; lua = f.lua; tdb = -1; resume = false; scount = 100; ssize = 1000000 })
-                  (z_of_int db) { r_cmd = bs "set"; r_args = [ bs k; bs "v" ]; r_end = Z0 }) c.pop in
+                  (z_of_int db) (let w = shape (let rec idx i = function [] -> 0 | (d', k') :: r -> if d' = db && k' = k then i else idx (i + 1) r in idx 0 c.pop) k in
+                                 { r_cmd = bs (String.lowercase_ascii (List.hd w)); r_args = List.map bs (List.tl w); r_end = Z0 })) c.pop in
   let showp l = String.concat " " (List.map (fun (d, k) -> Printf.sprintf "db%d/%S" d k) (List.sort compare l)) in
   if Srcgen.field obs "abort" <> None || Srcgen.field obs "panic" <> None then fail "oracle" "abort" (showp want) impl "the run aborted" else
   let (got, got_scripts) = match c.path with
@@ -117,7 +121,7 @@ let judge c obs =
         let cdb = ref 0 and keys = ref [] and scr = ref [] in
         List.iter (fun (cmd, args) -> match String.lowercase_ascii cmd, args with
           | "select", [ n ] -> cdb := int_of_string n
-          | "set", k :: _ -> keys := (!cdb, k) :: !keys
+          | ("set" | "incr" | "del" | "hset" | "unlink"), k :: _ -> keys := (!cdb, k) :: !keys
           | ("eval" | "evalsha" | "script" | "opinfo"), _ -> scr := cmd :: !scr
           | _ -> ()) (List.concat groups);
         (List.rev !keys, List.rev !scr) in
